@@ -1,6 +1,212 @@
-From Coq Require Import ZArith List Bool Lia.
+(* Lemmas for C10: the model of compile_scalar_graphs + evaluate computes the sum of pyzx's evaluate_scalar formula. *)
+From Coq Require Import ZArith List Bool Lia Ring Ring_theory PeanoNat.
 Import ListNotations.
-Require Import TV.Base.Wrap32 TV.Base.D8 TV.gen.Gen_exact_scalar TV.gen.Gen_matmul_gf2 TV.Model.ExactScalar TV.Model.Compile TV.Model.Evaluate.
+Require Import TV.Base.Wrap32 TV.Base.D8 TV.gen.Gen_exact_scalar TV.gen.Gen_matmul_gf2 TV.Model.ExactScalar
+  TV.Proofs.ExactScalarProofs TV.Model.Compile TV.Model.Evaluate.
 Open Scope Z_scope.
 Set Default Timeout 60.
-Lemma stub : True. Proof. exact I. Qed.
+
+Ltac Zify.zify_post_hook ::= Z.to_euclidean_division_equations.
+
+(* ====================================================================== 1. GF(2) row sums *)
+Lemma dot_nonneg mask : forall bits, 0 <= dot mask bits.
+Proof.
+  induction mask as [|m mask IH]; intros [|b bits]; cbn [dot]; try lia.
+  specialize (IH bits). destruct (m && b); cbn [b2z]; lia.
+Qed.
+
+Lemma dot_parity mask : forall bits, dot mask bits mod 2 = b2z (parity mask bits).
+Proof.
+  induction mask as [|m mask IH]; intros [|b bits]; cbn [dot parity]; try reflexivity.
+  specialize (IH bits). destruct (m && b), (parity mask bits); cbn [b2z xorb] in *; lia.
+Qed.
+
+Lemma b2z_binary b : b2z b = 0 \/ b2z b = 1.
+Proof. destruct b; cbn; lia. Qed.
+
+Lemma sat_u8_small z : 0 <= z <= 255 -> sat_u8 z = z.
+Proof. unfold sat_u8. lia. Qed.
+
+(* reducing mod 2 before the cast: correct for every width *)
+Lemma gf2_gen_mod_first mask bits : matmul_gf2_gen true mask bits = b2z (parity mask bits).
+Proof.
+  unfold matmul_gf2_gen. rewrite dot_parity. apply sat_u8_small. destruct (parity mask bits); cbn; lia.
+Qed.
+(* casting first: correct only while fewer than 256 selected parameters are set *)
+Lemma gf2_gen_cast_first_guarded mask bits : dot mask bits < 256 -> matmul_gf2_gen false mask bits = b2z (parity mask bits).
+Proof.
+  intro H. unfold matmul_gf2_gen. rewrite sat_u8_small by (pose proof (dot_nonneg mask bits); lia). apply dot_parity.
+Qed.
+Lemma gf2_gen_cast_first_refuted : exists mask bits, matmul_gf2_gen false mask bits <> b2z (parity mask bits).
+Proof. exists (repeat true 256), (repeat true 256). vm_compute. discriminate. Qed.
+
+(* the regenerated flag says "mod first"; this is where a reverted fix breaks the development *)
+Lemma gf2_flag : gf2_mod_before_cast = true.
+Proof. reflexivity. Qed.
+Lemma gf2_correct mask bits : matmul_gf2 mask bits = b2z (parity mask bits).
+Proof. unfold matmul_gf2. rewrite gf2_flag. apply gf2_gen_mod_first. Qed.
+Lemma gf2_mod mask bits : matmul_gf2 mask bits = dot mask bits mod 2.
+Proof. rewrite gf2_correct, dot_parity. reflexivity. Qed.
+Lemma gf2_binary mask bits : matmul_gf2 mask bits = 0 \/ matmul_gf2 mask bits = 1.
+Proof. rewrite gf2_correct. apply b2z_binary. Qed.
+
+(* ====================================================================== 2. masks of variable sets *)
+Definition binary (vals : var -> Z) : Prop := forall v, vals v = 0 \/ vals v = 1.
+Definition row_of (vals : var -> Z) (ps : list var) : list bool := map (fun p => Z.odd (vals p)) ps.
+
+Lemma zsum_cons x l : zsum (x :: l) = x + zsum l.
+Proof. reflexivity. Qed.
+Lemma zsum_nil : zsum [] = 0.
+Proof. reflexivity. Qed.
+Lemma zsum_app l1 l2 : zsum (l1 ++ l2) = zsum l1 + zsum l2.
+Proof. induction l1 as [|x l1 IH]; cbn [app]; rewrite ?zsum_cons, ?zsum_nil, ?IH; lia. Qed.
+
+Lemma dot_bitstr_sum vals ps vs : binary vals ->
+  dot (bitstr ps vs) (row_of vals ps) = zsum (map (fun p => if mem p vs then vals p else 0) ps).
+Proof.
+  intro Hb. unfold bitstr, row_of. induction ps as [|p ps IH]; cbn [map dot]; [reflexivity|].
+  rewrite zsum_cons, IH. f_equal.
+  destruct (mem p vs); cbn [andb b2z]; [|reflexivity].
+  destruct (Hb p) as [E|E]; rewrite E; reflexivity.
+Qed.
+
+Lemma zsum_single_out vals v ps : ~ In v ps -> zsum (map (fun p => if Nat.eqb p v then vals p else 0) ps) = 0.
+Proof.
+  induction ps as [|q ps IH]; intro Hn; cbn [map]; [reflexivity|]. rewrite zsum_cons.
+  destruct (Nat.eqb q v) eqn:E; [apply Nat.eqb_eq in E; subst; exfalso; apply Hn; left; reflexivity|].
+  rewrite IH; [lia|]. intro H. apply Hn. right. exact H.
+Qed.
+Lemma zsum_single vals v ps : NoDup ps -> In v ps -> zsum (map (fun p => if Nat.eqb p v then vals p else 0) ps) = vals v.
+Proof.
+  induction ps as [|p ps IH]; intros Hnd Hin; [destruct Hin|].
+  inversion Hnd as [|? ? Hnp Hnd']; subst. cbn [map]. rewrite zsum_cons.
+  destruct (Nat.eqb p v) eqn:E.
+  - apply Nat.eqb_eq in E; subst p. rewrite zsum_single_out by assumption. lia.
+  - destruct Hin as [->|Hin]; [rewrite Nat.eqb_refl in E; discriminate|]. rewrite IH by assumption. lia.
+Qed.
+
+Lemma zsum_map_add {A} (f g : A -> Z) l : zsum (map (fun x => f x + g x) l) = zsum (map f l) + zsum (map g l).
+Proof. induction l as [|x l IH]; cbn [map]; rewrite ?zsum_cons, ?zsum_nil, ?IH; lia. Qed.
+
+Lemma mem_In v vs : mem v vs = true <-> In v vs.
+Proof.
+  unfold mem. rewrite existsb_exists. split.
+  - intros (x & Hx & E). apply Nat.eqb_eq in E. subst. exact Hx.
+  - intro H. exists v. split; [exact H | apply Nat.eqb_refl].
+Qed.
+
+Lemma sum_over_params vals ps vs : NoDup ps -> vars_ok ps vs ->
+  zsum (map (fun p => if mem p vs then vals p else 0) ps) = vsum vals vs.
+Proof.
+  intros Hps [Hnd Hincl]. unfold vsum. induction vs as [|v vs IH].
+  - cbn [mem existsb map]. rewrite zsum_nil. clear Hps Hincl. induction ps as [|p ps IHp]; [reflexivity|]. cbn [map].
+    rewrite zsum_cons, IHp. reflexivity.
+  - inversion Hnd as [|? ? Hnv Hnd']; subst.
+    transitivity (zsum (map (fun p => (if Nat.eqb p v then vals p else 0) + (if mem p vs then vals p else 0)) ps)).
+    + f_equal. apply map_ext. intro p. unfold mem at 1. cbn [existsb]. fold (mem p vs).
+      destruct (Nat.eqb p v) eqn:E; cbn [orb]; [|lia].
+      apply Nat.eqb_eq in E; subst p. destruct (mem v vs) eqn:M; [apply mem_In in M; contradiction | lia].
+    + rewrite zsum_map_add, zsum_single; [|assumption|apply Hincl; left; reflexivity].
+      rewrite IH; [reflexivity | assumption | intros x Hx; apply Hincl; right; exact Hx].
+Qed.
+
+(* the row sum the evaluator computes for the mask of a variable set = parity of pyzx's sum over the set *)
+Lemma rs_bitstr vals ps vs : binary vals -> NoDup ps -> vars_ok ps vs ->
+  rs (row_of vals ps) (bitstr ps vs) = vsum vals vs mod 2.
+Proof.
+  intros Hb Hps Hvs. unfold rs. rewrite gf2_mod, dot_bitstr_sum, sum_over_params by assumption. reflexivity.
+Qed.
+
+Lemma dot_zero ps bits : dot (zero_bits ps) bits = 0.
+Proof.
+  unfold zero_bits. revert bits. induction ps as [|p ps IH]; intros [|b bits]; cbn [map dot]; try reflexivity.
+  rewrite IH. reflexivity.
+Qed.
+Lemma rs_zero ps bits : rs bits (zero_bits ps) = 0.
+Proof. unfold rs. rewrite gf2_mod, dot_zero. reflexivity. Qed.
+
+Lemma vsum_nonneg vals vs : binary vals -> 0 <= vsum vals vs.
+Proof.
+  intro Hb. unfold vsum. induction vs as [|v vs IH]; cbn [map]; rewrite ?zsum_cons, ?zsum_nil; [lia|].
+  destruct (Hb v); lia.
+Qed.
+
+(* ====================================================================== 3. the no-wrap guard makes int32 arithmetic exact *)
+Lemma pow_ok_spec p : pow_ok p = true -> - 2 ^ 29 < p < 2 ^ 29.
+Proof. unfold pow_ok. rewrite andb_true_iff, !Z.ltb_lt. tauto. Qed.
+
+Lemma mul_fits_exact x y : mul_fits x y = true -> esa_mul x y = esa_mul_exact x y.
+Proof.
+  unfold mul_fits. rewrite !andb_true_iff, Z.ltb_lt. intros [[Hn Hx] Hy].
+  apply pow_ok_spec in Hx, Hy. unfold esa_mul, esa_mul_exact. f_equal.
+  - apply mul32_exact. exact Hn.
+  - apply wrap32_id. unfold in32, H32. change (2 ^ 29) with 536870912 in *. lia.
+Qed.
+Lemma mul_fits_pows x y : mul_fits x y = true -> - 2 ^ 29 < snd x < 2 ^ 29 /\ - 2 ^ 29 < snd y < 2 ^ 29.
+Proof.
+  unfold mul_fits. rewrite !andb_true_iff. intros [[_ Hx] Hy]. split; apply pow_ok_spec; assumption.
+Qed.
+
+Lemma reduce_sound c p c' p' : reduce (c, p) = Some (c', p') -> - 2 ^ 30 < p < 2 ^ 30 ->
+  exists k, 0 <= k /\ p' = p + k /\ c = q4_scale (2 ^ k) c'.
+Proof.
+  intros H Hp. unfold reduce in H. apply reduce_fuel_sound in H.
+  - destruct H as (k & Hk & Hp' & Hc & _). exists k. repeat split; try lia; assumption.
+  - unfold in32, H32. change (2 ^ 30) with 1073741824 in Hp. lia.
+  - unfold H32. change (2 ^ 30) with 1073741824 in Hp. change (Z.of_nat 34) with 34. lia.
+Qed.
+
+(* aligned sum without wrap *)
+Lemma norm1_nonneg x : 0 <= norm1 x.
+Proof. destruct x as [[[a b] c] d]. cbn. lia. Qed.
+Lemma norm1_add x y : norm1 (q4_add x y) <= norm1 x + norm1 y.
+Proof. destruct x as [[[a1 b1] c1] d1], y as [[[a2 b2] c2] d2]. cbn. lia. Qed.
+Lemma norm1_scale k x : norm1 (q4_scale k x) = Z.abs k * norm1 x.
+Proof. destruct x as [[[a b] c] d]. cbn. rewrite !Z.abs_mul. lia. Qed.
+
+Lemma align32_exact m x : 0 <= snd x - m < 31 -> norm1 (fst x) * 2 ^ (snd x - m) < H32 -> align32 m x = align_exact m x.
+Proof.
+  intros Hk Hn. unfold align32, align_exact, pow2_32.
+  assert (Hp : 0 < 2 ^ (snd x - m)) by (apply Z.pow_pos_nonneg; lia).
+  assert (Hp31 : 2 ^ (snd x - m) < H32).
+  { unfold H32. change 2147483648 with (2 ^ 31). apply Z.pow_lt_mono_r; lia. }
+  rewrite (Z.mod_small (snd x - m) 64) by lia.
+  rewrite (wrap32_id (2 ^ (snd x - m))) by (unfold in32; lia).
+  destruct (fst x) as [[[a b] c] d]. cbn [q4_map q4_scale norm1] in *.
+  assert (Ha : Z.abs a * 2 ^ (snd x - m) < H32 /\ Z.abs b * 2 ^ (snd x - m) < H32 /\ Z.abs c * 2 ^ (snd x - m) < H32 /\ Z.abs d * 2 ^ (snd x - m) < H32) by nia.
+  destruct Ha as (Ha & Hb & Hc & Hd).
+  repeat match goal with |- (_, _) = (_, _) => apply f_equal2 end;
+    rewrite wrap32_id; try ring; unfold in32; nia.
+Qed.
+
+Lemma fold_add32_exact l : forall acc, norm1 acc + zsum (map norm1 l) < H32 ->
+  fold_left add32 l acc = fold_left q4_add l acc.
+Proof.
+  induction l as [|x l IH]; intros acc H; cbn [fold_left]; [reflexivity|].
+  cbn [map] in H. rewrite zsum_cons in H.
+  assert (Hl : 0 <= zsum (map norm1 l)).
+  { clear. induction l as [|y l IHl]; cbn [map]; rewrite ?zsum_cons, ?zsum_nil; [lia|]. pose proof (norm1_nonneg y). lia. }
+  assert (E : add32 acc x = q4_add acc x).
+  { unfold add32. apply q4_map_wrap_id, norm1_small_in32. pose proof (norm1_add acc x). lia. }
+  rewrite E. apply IH. pose proof (norm1_add acc x). lia.
+Qed.
+
+Lemma sum_guard_exact l : sum_guard l = true -> esa_sum l = esa_sum_exact l /\ exists s m, esa_sum_exact l = Some (s, m).
+Proof.
+  unfold sum_guard, esa_sum, esa_sum_exact. destruct (min_list (map snd l)) as [m|] eqn:Hm; [|discriminate].
+  rewrite andb_true_iff, forallb_forall, Z.ltb_lt. intros [Hk Hs]. split; [|eauto].
+  f_equal. f_equal.
+  assert (Hge : forall x, In x l -> 0 <= snd x - m < 31).
+  { intros x Hx. specialize (Hk x Hx). apply Z.ltb_lt in Hk. pose proof (min_list_le _ _ Hm (snd x) (in_map snd _ _ Hx)). lia. }
+  assert (Hmap : map (align32 m) l = map (align_exact m) l /\ zsum (map norm1 (map (align_exact m) l)) <= zsum (map (fun x => norm1 (fst x) * 2 ^ (snd x - m)) l)).
+  { clear Hm Hk. induction l as [|x l IH]; [split; [reflexivity | cbn; lia]|].
+    cbn [map] in *. rewrite !zsum_cons in *.
+    assert (Hnn : forall l', 0 <= zsum (map (fun x0 : q4 * Z => norm1 (fst x0) * 2 ^ (snd x0 - m)) l')).
+    { intro l'. induction l' as [|y l' IHl']; cbn [map]; rewrite ?zsum_cons, ?zsum_nil; [lia|].
+      pose proof (norm1_nonneg (fst y)). pose proof (Z.pow_nonneg 2 (snd y - m)). nia. }
+    destruct IH as [IH1 IH2]; [pose proof (Hnn l); pose proof (norm1_nonneg (fst x)); pose proof (Z.pow_nonneg 2 (snd x - m)); nia | intros y Hy; apply Hge; right; exact Hy |].
+    split.
+    - f_equal; [|exact IH1]. apply align32_exact; [apply Hge; left; reflexivity|]. pose proof (Hnn l). lia.
+    - unfold align_exact at 1. rewrite norm1_scale, Z.abs_eq by (apply Z.pow_nonneg; lia). nia. }
+  destruct Hmap as [Hmap Hle]. rewrite Hmap. apply fold_add32_exact. cbn [q4_zero norm1 Z.abs]. lia.
+Qed.
